@@ -312,7 +312,7 @@ func (d *badgerNodeDB) Finalize(roots []node.Root) error { // nolint: gocyclo
 	rootIt := tx.NewIterator(badger.IteratorOptions{Prefix: rootsPrefix})
 	defer rootIt.Close()
 
-	var removeMetaKeys [][]byte
+	var removeMetaKeys, removeRootKeys [][]byte
 	finalizedSeqNos := make(map[byte]uint16)
 	maybeLoneNodes := make(map[byte]map[string]struct{})
 	notLoneNodes := make(map[byte]map[string]struct{})
@@ -392,6 +392,11 @@ func (d *badgerNodeDB) Finalize(roots []node.Root) error { // nolint: gocyclo
 
 				maybeLoneNodes[rht][string(un.Key)] = struct{}{}
 			}
+
+			// The root node of a non-finalized root must be removed as well. Otherwise the root stays
+			// visible (HasRoot, GetRootsForVersion) and, once the pending sequence numbers are gone,
+			// its child pointers resolve to the nodes of the finalized root.
+			removeRootKeys = append(removeRootKeys, rootIt.Item().KeyCopy(nil))
 
 			// Remove write logs for the non-finalized root.
 			if !d.discardWriteLogs {
@@ -510,6 +515,22 @@ func (d *badgerNodeDB) Finalize(roots []node.Root) error { // nolint: gocyclo
 		return err
 	}
 	verifhook.Crash("pathbadger.go:Finalize:after-delete-meta-flush")
+
+	// Remove root nodes of non-finalized roots. This must happen after everything else that
+	// belongs to these roots has been removed, as an interrupted finalization discovers the
+	// non-finalized roots (and redoes their cleanup) through their root nodes.
+	if len(removeRootKeys) > 0 {
+		batch = d.db.NewWriteBatchAt(versionToTs(version))
+		defer batch.Cancel()
+		for _, key := range removeRootKeys {
+			if err := batch.Delete(key); err != nil {
+				return fmt.Errorf("mkvs/pathbadger: failed to delete root node: %w", err)
+			}
+		}
+		if err := batch.Flush(); err != nil {
+			return err
+		}
+	}
 
 	// Update last finalized version.
 	d.meta.setLastFinalizedVersion(version)
